@@ -426,6 +426,32 @@ def check_single_folding(ctx, P, maps, rule):
         n[mp] = n.get(mp, 0) + 1
         for k in norm.kinds:
             per_map.setdefault(mp, {}).setdefault(k, []).append("%s (%s)" % (f.short, where(f, b)))
+    # the names carried by the reruns of a search are compared with the table's keys when a search is stopped or
+    # replaced: the folding applied in those comparisons belongs to the same table
+    PAYLOADS = {"hostname_resolvers": "ResolveHostname"}
+    for mp in maps:
+        var = PAYLOADS.get(mp)
+        if not var:
+            continue
+        for f in P.lib_fns():
+            if f.in_tests():
+                continue
+            tr = None
+            for b, t in f.calls():
+                if method(cname(t)) not in ("eq", "ne", "eq_ignore_ascii_case") or len(t["args"]) < 2:
+                    continue
+                tr = tr or tracer(P, f)
+                sides = [tr.operand(a, endpos(f, b)) for a in t["args"][:2]]
+                if not any(any(x[0] == "downcast" and x[2] == var for x in walk(sd)) for sd in sides):
+                    continue
+                if method(cname(t)) == "eq_ignore_ascii_case":
+                    per_map.setdefault(mp, {}).setdefault("to_ascii_lowercase", []).append("%s (%s, eq_ignore_ascii_case)" % (f.short, where(f, b)))
+                for sd in sides:
+                    for x in walk(sd):
+                        if x[0] == "call":
+                            k = strip_generics(x[1]).rsplit("::", 1)[-1]
+                            if k in ("to_lowercase", "to_ascii_lowercase"):
+                                per_map.setdefault(mp, {}).setdefault(k, []).append("%s (%s, rerun comparison)" % (f.short, where(f, b)))
     for mp in sorted(maps):
         kinds = per_map.get(mp, {})
         ok = len(kinds) <= 1
